@@ -40,7 +40,7 @@ func init() {
 			"'tree unmodified' is decided by a structural reflection snapshot taken by the monitor before the call",
 			"the order of ResolvePackage calls follows map iteration, so fail-at-k hits a different package from run to run; every k is covered, not every (k, package) pair",
 		},
-		Required: map[string]int{"fault_kinds": 7},
+		Required: map[string]int{"fault_kinds": 8},
 	})
 }
 
@@ -305,6 +305,87 @@ func c17Decorate(c *fw.Ctx, id, name string, src []byte) {
 					}
 					c.Nontrivial(cidf)
 				})
+			}
+		}
+	}
+	// (g) the file as part of an *ast.Package built by go/ast (package scope with objects whose
+	// declarations are decorated through the scope, before the files): identifier resolver fails at k
+	{
+		mkpkg := func() (*token.FileSet, *ast.Package) {
+			fset := token.NewFileSet()
+			af, err := parser.ParseFile(fset, name, src, parser.ParseComments)
+			if err != nil {
+				return nil, nil
+			}
+			extra := "package " + af.Name.Name + "\n\nimport \"strings\"\n\nvar zzExtra = strings.ToUpper(\"x\")\n\nfunc zzUse() string { return zzExtra + strings.Repeat(\"y\", 2) }\n"
+			bf, err := parser.ParseFile(fset, "zz_extra.go", extra, parser.ParseComments)
+			if err != nil {
+				return nil, nil
+			}
+			pkg, _ := ast.NewPackage(fset, map[string]*ast.File{name: af, "zz_extra.go": bf}, nil, nil)
+			return fset, pkg
+		}
+		fsetP, pkgP := mkpkg()
+		if pkgP != nil {
+			probe := &failingIdentResolver{inner: goast.New()}
+			var refPkg dst.Node
+			var refErr error
+			fw.Try(func() {
+				refPkg, refErr = decorator.NewDecoratorWithImports(fsetP, "example.com/self", probe).DecorateNode(pkgP)
+			})
+			if refPkg != nil && refErr == nil && probe.calls > 0 {
+				printPkg := func(n dst.Node) string {
+					out := ""
+					pk := n.(*dst.Package)
+					for _, fn := range []string{name, "zz_extra.go"} {
+						if df := pk.Files[fn]; df != nil {
+							s, _ := printWithImports(df)
+							out += "// " + fn + "\n" + s
+						}
+					}
+					return out
+				}
+				refOutP := printPkg(refPkg)
+				K := probe.calls
+				ks := []int{1, 2, (K + 1) / 2, K - 1, K}
+				seen := map[int]bool{}
+				for _, k := range ks {
+					if k < 1 || k > K || seen[k] {
+						continue
+					}
+					seen[k] = true
+					cidg := fmt.Sprintf("%s/package-scope-fail@%d", id, k)
+					c.Case(cidg, func() {
+						c.Observe("fault_kinds", "ident-resolver-in-package-with-scope")
+						fset, pkg := mkpkg()
+						if pkg == nil {
+							return
+						}
+						fr := &failingIdentResolver{inner: goast.New(), failAt: k}
+						var out dst.Node
+						var err error
+						if sig, detail := fw.Try(func() {
+							out, err = decorator.NewDecoratorWithImports(fset, "example.com/self", fr).DecorateNode(pkg)
+						}); sig != "" {
+							c.Violate("panic-on-fault", sig, cidg+"\n"+detail, string(src))
+							return
+						}
+						if fr.calls < k {
+							c.Count("fault_point_not_reached", 1)
+							return
+						}
+						c17Verdict(c, cidg, "decorate-package", err, !refl.IsNil(out), 0, string(src))
+						out2, err2 := decorator.NewDecoratorWithImports(fset, "example.com/self", goast.New()).DecorateNode(pkg)
+						if err2 != nil || refl.IsNil(out2) {
+							c.Violate("retry-fails", "retry-fails:decorate-package", fmt.Sprintf("%s: %v", cidg, err2), string(src))
+							return
+						}
+						if got := printPkg(out2); got != refOutP {
+							c.Violate("retry-differs", "retry-differs:decorate-package", cidg+": retry output differs from the failure-free output", string(src))
+						}
+						c.Nontrivial(cidg)
+					})
+				}
 			}
 		}
 	}
